@@ -206,6 +206,14 @@ def guard_by_worlds(prog, f, is_site):
                 if args[0][2] == "None":
                     return ("int", 1)
                 return ev._call_closure(args[1], [args[0][3][0]])
+            if name == "filter" and len(args) == 2 and args[0][0] == "variant" and args[0][1] == "Option":
+                # Option::filter over the looked-up record (`.filter(|g| g.state != GroupState::Active)`)
+                if args[0][2] == "None":
+                    return args[0]
+                r = ev._call_closure(args[1], [args[0][3][0]])
+                if r is not None and r[0] == "int":
+                    return args[0] if r[1] else ("variant", "Option", "None", ())
+                return None
             if name in ("map", "and_then") and len(args) == 2 and args[0][0] == "variant" and args[0][1] == "Option":
                 # Option::map / and_then over the looked-up record (`.map(|existing| existing.state)`)
                 if args[0][2] == "None":
